@@ -217,7 +217,10 @@ pub fn meta_world(s: &SchemaAst) -> World {
 // The perturbing wrapper around the real SchemaAdapter.
 
 struct Shared {
-    sched: RefCell<Tape>,
+    /// Perturbation decisions are a pure function of (seed, call site, index within the call's
+    /// stream), not of the order in which streams are pulled: SchemaAdapter's VertexType order is
+    /// hash order, and the simulation must stay a function of its tapes alone.
+    seed: u64,
     random: bool,
     problems: RefCell<Vec<(String, String)>>,
     injected: Cell<u64>,
@@ -234,12 +237,13 @@ struct PerturbAdapter<'a> {
 fn wrap_in<'a, V: AsVertex<SV<'a>> + 'a>(
     contexts: ContextIterator<'a, V>,
     shared: &Rc<Shared>,
+    site: &str,
 ) -> (ContextIterator<'a, V>, Rc<RefCell<VecDeque<bool>>>) {
     let flags = Rc::new(RefCell::new(VecDeque::new()));
     // The boxed iterator types below carry `'a`; transmuting lifetimes is not needed because the
     // wrapper structs are generic over the item type only and box their inner iterator as
     // `dyn Iterator + 'a` through the helper below.
-    let it = lifetimes::input(contexts, flags.clone(), shared.clone());
+    let it = lifetimes::input(contexts, flags.clone(), shared.clone(), fnv1a(site.as_bytes()));
     (it, flags)
 }
 
@@ -248,6 +252,8 @@ mod lifetimes {
     use super::*;
 
     pub struct In<'a, V> {
+        pub site: u64,
+        pub idx: u64,
         pub inner: Option<ContextIterator<'a, V>>,
         pub buf: VecDeque<DataContext<V>>,
         pub flags: Rc<RefCell<VecDeque<bool>>>,
@@ -260,12 +266,17 @@ mod lifetimes {
             if self.buf.is_empty() {
                 if let Some(inner) = self.inner.as_mut() {
                     let random = self.shared.random;
-                    let n = if random { 1 + self.shared.sched.borrow_mut().draw(4) } else { 1 };
+                    let (seed, site) = (self.shared.seed, self.site);
+                    let mut decide = |idx: &mut u64, n: u64| -> u64 {
+                        *idx += 1;
+                        mix(mix(seed, site), *idx) % n
+                    };
+                    let n = if random { 1 + decide(&mut self.idx, 4) } else { 1 };
                     let mut got = 0;
                     for _ in 0..n {
                         match inner.next() {
                             Some(c) => {
-                                if random && self.shared.sched.borrow_mut().draw(4) == 3 {
+                                if random && decide(&mut self.idx, 4) == 3 {
                                     self.flags.borrow_mut().push_back(true);
                                     self.buf.push_back(DataContext::new(None));
                                     self.shared.injected.set(self.shared.injected.get() + 1);
@@ -276,7 +287,7 @@ mod lifetimes {
                             }
                             None => {
                                 self.inner = None;
-                                if random && self.shared.sched.borrow_mut().draw(4) == 3 {
+                                if random && decide(&mut self.idx, 4) == 3 {
                                     self.flags.borrow_mut().push_back(true);
                                     self.buf.push_back(DataContext::new(None));
                                     self.shared.injected.set(self.shared.injected.get() + 1);
@@ -298,8 +309,9 @@ mod lifetimes {
         contexts: ContextIterator<'a, V>,
         flags: Rc<RefCell<VecDeque<bool>>>,
         shared: Rc<Shared>,
+        site: u64,
     ) -> ContextIterator<'a, V> {
-        Box::new(In { inner: Some(contexts), buf: VecDeque::new(), flags, shared })
+        Box::new(In { site, idx: 0, inner: Some(contexts), buf: VecDeque::new(), flags, shared })
     }
 
     pub struct Out<'a, V, O> {
@@ -361,7 +373,8 @@ impl<'a> Adapter<'a> for PerturbAdapter<'a> {
         property_name: &Arc<str>,
         resolve_info: &ResolveInfo,
     ) -> ContextOutcomeIterator<'a, V, FieldValue> {
-        let (input, flags) = wrap_in(contexts, &self.shared);
+        let vid = format!("{:?}", trustfall_core::interpreter::VertexInfo::vid(resolve_info));
+        let (input, flags) = wrap_in(contexts, &self.shared, &format!("p|{type_name}|{property_name}|{vid}"));
         let inner = self.inner.resolve_property(input, type_name, property_name, resolve_info);
         Box::new(lifetimes::Out {
             inner,
@@ -382,7 +395,8 @@ impl<'a> Adapter<'a> for PerturbAdapter<'a> {
         parameters: &EdgeParameters,
         resolve_info: &ResolveEdgeInfo,
     ) -> ContextOutcomeIterator<'a, V, VertexIterator<'a, Self::Vertex>> {
-        let (input, flags) = wrap_in(contexts, &self.shared);
+        let eid = format!("{:?}", resolve_info.eid());
+        let (input, flags) = wrap_in(contexts, &self.shared, &format!("n|{type_name}|{edge_name}|{eid}"));
         let inner = self.inner.resolve_neighbors(input, type_name, edge_name, parameters, resolve_info);
         Box::new(lifetimes::Out {
             inner,
@@ -479,18 +493,15 @@ pub fn case_c20(tapes: &mut Tapes) -> Result<CaseResult, HarnessError> {
         }
         digest = mix(digest, fnv1a(w.query_text.as_bytes()));
         for random in [false, true] {
-            let sched = if random { std::mem::replace(&mut tapes.sched, Tape::replaying(vec![])) } else { Tape::replaying(vec![]) };
+            let seed = if random { ((tapes.sched.draw(1 << 16) as u64) << 16) | tapes.sched.draw(1 << 16) as u64 } else { 0 };
             let shared = Rc::new(Shared {
-                sched: RefCell::new(sched),
+                seed,
                 random,
                 problems: RefCell::new(vec![]),
                 injected: Cell::new(0),
                 read_ahead: Cell::new(0),
             });
             let res = run_engine(&subject, w.compiled.clone(), w.args_arc.clone(), shared.clone());
-            if random {
-                tapes.sched = shared.sched.borrow().clone();
-            }
             stats.execs += 1;
             stats.fires.f2_chunked_refill += shared.read_ahead.get();
             stats.events += shared.injected.get();
@@ -565,3 +576,16 @@ pub fn case_c20(tapes: &mut Tapes) -> Result<CaseResult, HarnessError> {
     Ok(CaseResult { violations, stats })
 }
 
+
+#[allow(dead_code)]
+pub fn debug_show(tapes: &mut Tapes) {
+    let (subject_world, _) = build_world(tapes);
+    let mworld = Rc::new(meta_world(&subject_world.schema));
+    for _ in 0..3 {
+        let mut cfg = QueryCfg::draw(&mut tapes.query, false);
+        cfg.f_coercion = false;
+        let q = gen_query(&mworld, &mut tapes.query, cfg);
+        let args = gen_args(&q, &mworld, &mut tapes.args);
+        println!("{}\n{:?}", q.render(&mworld), args);
+    }
+}
